@@ -42,12 +42,13 @@ var strFuncs = map[string]LGFunction{
 
 func strByte(L *LState) int {
 	str := L.CheckString(1)
-	start := L.OptInt(2, 1) - 1
+	start := L.OptInt(2, 1)
 	end := L.OptInt(3, -1)
 	l := len(str)
 	if start < 0 {
 		start = l + start + 1
 	}
+	start-- // zero-based; position 0 and positions before the string are negative now
 	if end < 0 {
 		end = l + end + 1
 	}
